@@ -117,12 +117,30 @@ def p1_maps(ctx):
     fn = repo.func(VOL, "VolumeMesh._BoundaryConnectivity._extract_surface_boundary")
     common.inverse_map_pairs(ctx, "C03-P1", VOL, fn, [("m2b_vertex", "b2m_vertex"), ("m2b_face", "b2m_face")], min_pairs=2)
     # the index used for the boundary vertex is the position at which it is appended
-    enum_vertex_alignment(ctx, VOL, fn, "m2b_vertex", "boundary")
+    enum_vertex_alignment(ctx, VOL, fn, "m2b_vertex", _raw_var(fn))
     fn = repo.func(BORDER, "extract_boundary_of_volume")
-    common.inverse_map_pairs(ctx, "C03-P1", BORDER, fn, [("map_m2b", "map_b2m")])
-    enum_vertex_alignment(ctx, BORDER, fn, "map_m2b", "bound")
+    # the two maps are local dictionaries: they are identified by their role (second and third component of the returned triple)
+    rets = [st for st in fn.body if isinstance(st, ast.Return) and isinstance(st.value, ast.Tuple) and len(st.value.elts) == 3
+            and all(isinstance(e, ast.Name) for e in st.value.elts[1:])]
+    if not rets:
+        ctx.fail("C03-P1", ctx.site(BORDER, fn), "extract_boundary_of_volume no longer returns (surface, boundary -> mesh map, mesh -> boundary map)", "")
+        return
+    stores = {s[1] for s in common.subscript_stores(fn)}
+    a, b_ = (e.id for e in rets[-1].value.elts[1:])
+    # which of the two is keyed by the mesh vertex: the one read when the faces are re-indexed
+    common.inverse_map_pairs(ctx, "C03-P1", BORDER, fn, [(a, b_)])
+    m2b = next((x for x in (a, b_) if any(isinstance(n, ast.Subscript) and isinstance(n.value, ast.Name) and n.value.id == x
+                                          and isinstance(n.ctx, ast.Load) for n in au.walk(fn))), a)
+    enum_vertex_alignment(ctx, BORDER, fn, m2b, _raw_var(fn))
     fn = repo.func(VOL, "VolumeMesh._Connectivity._compute_cell_adj")
     common.relation_pairs(ctx, "C03-P1", VOL, fn, "_adjC2F", "_adjF2C", min_sites=2)
+
+
+def _raw_var(fn):
+    """the local name bound to the RawMeshData() under construction"""
+    names = [t.id for st in au.stmts(fn.body) if isinstance(st, ast.Assign) and isinstance(st.value, ast.Call)
+             and au.call_tail(st.value) == "RawMeshData" and not st.value.args for t in st.targets if isinstance(t, ast.Name)]
+    return names[0] if len(names) == 1 else None
 
 
 def enum_vertex_alignment(ctx, modname, fn, mapname, meshvar):
